@@ -196,4 +196,7 @@ impl<BE: DecryptWriteBackend> Indexer<BE> {
 #[allow(missing_docs, unused_imports, dead_code, clippy::all, clippy::pedantic, clippy::nursery)]
 pub mod verif_hooks {
     use super::*;
+
+    /// `constants::MAX_COUNT`: the number of indexed blobs at which the indexer saves an index file on its own.
+    pub const MAX_COUNT: usize = constants::MAX_COUNT;
 }
